@@ -132,6 +132,56 @@ def run_generator(text, name, env=None, features=None, extra_args=None, timeout=
     return GenResult(r.returncode == 0 and rs != "", rs, r.stdout, r.returncode, crashed)
 
 
+_gendrv_bin = None
+
+
+def build_gendrv():
+    """engines/gendrv: tiny binary over the generator's *library* API (process_dir), built against
+    /repo's current working tree; target dir persists under /verif/engines/gendrv/target."""
+    global _gendrv_bin
+    if _gendrv_bin:
+        return _gendrv_bin
+    d = os.path.join(VERIF, "engines", "gendrv")
+    shutil.copy(os.path.join(REPO, "Cargo.lock"), os.path.join(d, "Cargo.lock"))
+    t0 = time.time()
+    r = subprocess.run(["cargo", "build", "--offline"], cwd=d, env=env_with(), stdout=subprocess.PIPE, stderr=subprocess.STDOUT, text=True)
+    if r.returncode != 0:
+        sys.stdout.write(r.stdout[-4000:])
+        raise Inconclusive("cannot build engines/gendrv against %s" % REPO)
+    _gendrv_bin = os.path.join(d, "target", "debug", "gendrv")
+    log("[build] gendrv (library API driver) built in %.1fs" % (time.time() - t0))
+    return _gendrv_bin
+
+
+def run_generator_api(text, name, env=None, features=None, timeout=300):
+    """Run the generator through Configuration::process_dir (reads CARGO_FEATURE_* when `features`
+    is None; uses set_features otherwise)."""
+    exe = build_gendrv()
+    d = tempfile.mkdtemp(prefix="genapi-", dir=workdir())
+    ind, outd = os.path.join(d, "in"), os.path.join(d, "out")
+    os.makedirs(ind)
+    os.makedirs(outd)
+    with open(os.path.join(ind, name + ".lalrpop"), "w") as f:
+        f.write(text)
+    e = env_with({})
+    for k in list(e.keys()):
+        if k.startswith("CARGO_FEATURE_") or k == "LALRPOP_LANE_TABLE":
+            del e[k]
+    e.update(env or {})
+    cmd = [exe, ind, outd]
+    if features is not None:
+        cmd += ["--features", ",".join(features)]
+    try:
+        r = subprocess.run(cmd, cwd=d, env=e, stdout=subprocess.PIPE, stderr=subprocess.STDOUT, text=True, timeout=timeout)
+    except subprocess.TimeoutExpired:
+        return GenResult(False, "", "TIMEOUT", -1, True)
+    rs_path = os.path.join(outd, name + ".rs")
+    rs = open(rs_path).read() if (r.returncode == 0 and os.path.exists(rs_path)) else ""
+    crashed = r.returncode not in (0, 1) or "panicked at" in r.stdout
+    shutil.rmtree(d, ignore_errors=True)
+    return GenResult(r.returncode == 0 and rs != "", rs, r.stdout, r.returncode, crashed)
+
+
 # --------------------------------------------------------------------------------------------
 # Kani
 # --------------------------------------------------------------------------------------------
